@@ -358,6 +358,11 @@ pub trait I64Ops {
     fn i64_convolution_by_const(dst: &mut [i64], dst_size: usize, offset: usize, a: &[i64], a_size: usize, b: &[i64]) {
         assert!(a_size > 0);
 
+        // Nothing to compute for an empty destination (and `dst_size - 1` would underflow).
+        if dst_size == 0 {
+            return;
+        }
+
         for k in (0..dst_size - 1).step_by(2) {
             Self::i64_convolution_by_const_2coeffs(k + offset, as_arr_i64_mut(&mut dst[8 * k..]), a, a_size, b);
         }
@@ -431,14 +436,14 @@ pub fn i64_convolution_by_const_1coeff_ref(k: usize, dst: &mut [i64; 8], a: &[i6
 #[allow(dead_code)]
 #[inline(always)]
 pub(crate) fn as_arr_i64<const SIZE: usize>(x: &[i64]) -> &[i64; SIZE] {
-    debug_assert!(x.len() >= SIZE, "x.len():{} < size:{}", x.len(), SIZE);
+    assert!(x.len() >= SIZE, "x.len():{} < size:{}", x.len(), SIZE);
     unsafe { &*(x.as_ptr() as *const [i64; SIZE]) }
 }
 
 #[allow(dead_code)]
 #[inline(always)]
 pub(crate) fn as_arr_i64_mut<const SIZE: usize>(x: &mut [i64]) -> &mut [i64; SIZE] {
-    debug_assert!(x.len() >= SIZE, "x.len():{} < size:{}", x.len(), SIZE);
+    assert!(x.len() >= SIZE, "x.len():{} < size:{}", x.len(), SIZE);
     unsafe { &mut *(x.as_mut_ptr() as *mut [i64; SIZE]) }
 }
 
